@@ -1,4 +1,7 @@
 """Oracles shared by the E1-based checks (C07, C08, C18, C02)."""
+import os
+import signal
+
 import cli
 
 
@@ -78,7 +81,13 @@ def check_atomicity(sc, base, x):
             yield c, f
     for f in x.src:
         if f not in orig:
-            yield "new-source-file", f
+            # a new file that a later run would take for a source file is always an offence; a leftover that is out of scope by its name
+            # (a scratch copy beside the file it was to replace) is one only if the process was still there to remove it - the properties
+            # say nothing about what a *killed* run leaves behind except that it is never a half-written source file (DESIGN section 7)
+            base_name = os.path.basename(f)
+            in_scope = "." in base_name and base_name.rsplit(".", 1)[0] != "" and base_name.rsplit(".", 1)[1] in getattr(sc, "extensions", ["rs"])
+            if in_scope or x.signal != signal.SIGKILL:
+                yield "new-source-file", f
 
 
 def check_followup(x):
